@@ -66,6 +66,11 @@ pub struct Plan {
     /// stall may last as long as the peer likes
     #[serde(default)]
     pub late_hold_ms: u64,
+    /// after the healthy streams have been checked the peer gives its stalled streams up: it
+    /// resets every one of them with this code (a peer may abandon a stream at any point of its
+    /// preamble); the rest of the session must not notice
+    #[serde(default)]
+    pub abandon_code: Option<u64>,
 }
 
 pub fn gen_plan(seed: u64, index: usize, _tier: Tier) -> Plan {
@@ -163,6 +168,7 @@ pub fn gen_plan(seed: u64, index: usize, _tier: Tier) -> Plan {
         close_code: rng.next_u64() as u32,
         lazy_datagrams,
         late_hold_ms: if rng.chance_pm(300) { *rng.pick(&[6_000u64, 12_000, 20_000]) } else { 0 },
+        abandon_code: if rng.chance_pm(250) { Some(*rng.pick(&[0u64, 1, 0x10c, 0x52e4a40fa8db, (1 << 62) - 1])) } else { None },
     }
 }
 
@@ -289,6 +295,8 @@ struct Outcome {
     healthy: Vec<(u64, bool, Vec<u8>, String)>, // id, bidi, payload, description
     dgrams_sent_final: Vec<Vec<u8>>,
     stalled_desc: Vec<String>,
+    /// the sending sides of the stalled streams (those not written by a task of their own)
+    stalled_sends: Vec<quinn::SendStream>,
     keep: Vec<Box<dyn std::any::Any + Send>>,
 }
 
@@ -299,7 +307,7 @@ async fn drive_raw(
     session_id: u64,
     app: &Arc<Mutex<AppState>>,
 ) -> Result<Outcome, String> {
-    let mut out = Outcome { healthy: Vec::new(), dgrams_sent_final: Vec::new(), stalled_desc: Vec::new(), keep: Vec::new() };
+    let mut out = Outcome { healthy: Vec::new(), dgrams_sent_final: Vec::new(), stalled_desc: Vec::new(), stalled_sends: Vec::new(), keep: Vec::new() };
     let window = plan.k.stream_recv_window as usize;
     // unread data must stay well below the *connection* window, otherwise the stall is the
     // transport's legitimate connection-level flow control, not a stream dependency
@@ -346,7 +354,8 @@ async fn drive_raw(
                     if !bytes.is_empty() {
                         rp::write_all(&mut s, &bytes).await?;
                     }
-                    out.keep.push(Box::new((s, r)));
+                    out.stalled_sends.push(s);
+                    out.keep.push(Box::new(r));
                 } else {
                     let mut s = conn.open_uni().await.map_err(|e| format!("raw open_uni: {e:?}"))?;
                     out.stalled_desc.push(format!("uni#{} {:?}", rp::sid(s.id()), pos));
@@ -360,7 +369,7 @@ async fn drive_raw(
                     if !bytes.is_empty() {
                         rp::write_all(&mut s, &bytes).await?;
                     }
-                    out.keep.push(Box::new(s));
+                    out.stalled_sends.push(s);
                 }
             }
             Op::Healthy { bidi, len, key, finish } => {
@@ -419,7 +428,7 @@ pub fn execute(plan: &Plan, trace: bool) -> Exec {
     let p2 = plan.clone();
     let netslot: Arc<Mutex<Option<SimNet>>> = Arc::new(Mutex::new(None));
     let ns2 = netslot.clone();
-    type R = Result<(Vec<(String, String)>, usize, usize), String>;
+    type R = Result<(Vec<(String, String)>, usize, usize, usize), String>;
     let out = simrt::run(&plan.rt, plan.seed, Duration::from_secs(300), move || async move {
         let plan = p2;
         let net = SimNet::new(plan.net.clone(), trace);
@@ -485,7 +494,7 @@ pub fn execute(plan: &Plan, trace: bool) -> Exec {
         net.note("established");
 
         // ---- scripted traffic ----------------------------------------------------------
-        let o = drive_raw(&plan, &net, &conn_raw, session_id, &app).await?;
+        let mut o = drive_raw(&plan, &net, &conn_raw, session_id, &app).await?;
         net.note("script-done");
         let mut problems: Vec<(String, String)> = Vec::new();
 
@@ -526,7 +535,16 @@ pub fn execute(plan: &Plan, trace: bool) -> Exec {
         }
         // the stalls stay; much later the connection must still take new streams
         let mut late_keep: Vec<Box<dyn std::any::Any + Send>> = Vec::new();
-        if plan.late_hold_ms > 0 {
+        let mut abandoned = 0usize;
+        if let Some(code) = plan.abandon_code {
+            for s in o.stalled_sends.iter_mut() {
+                if s.reset(quinn::VarInt::from_u64(code).unwrap()).is_ok() {
+                    abandoned += 1;
+                }
+            }
+            net.quiesce(Duration::from_millis(50), Duration::from_secs(2)).await;
+        }
+        if plan.late_hold_ms > 0 || abandoned > 0 {
             tokio::time::sleep(Duration::from_millis(plan.late_hold_ms)).await;
             let mut p2 = (*plan).clone();
             p2.ops = vec![
@@ -550,7 +568,7 @@ pub fn execute(plan: &Plan, trace: bool) -> Exec {
                 if st.got_streams.get(id) != Some(payload) {
                     problems.push((
                         format!("C07/healthy-{}-not-delivered", if *bidi { "bidi" } else { "uni" }),
-                        format!("healthy stream {desc} opened {} ms after the stalls began was not delivered intact within 30 s; stalled: {:?}", plan.late_hold_ms, o.stalled_desc),
+                        format!("healthy stream {desc} opened {} ms after the stalls began ({abandoned} of them abandoned by a reset) was not delivered intact within 30 s; stalled: {:?}", plan.late_hold_ms, o.stalled_desc),
                     ));
                 }
             }
@@ -614,7 +632,7 @@ pub fn execute(plan: &Plan, trace: bool) -> Exec {
         let nh = o.healthy.len();
         let ns = o.stalled_desc.len();
         drop(o);
-        Ok((problems, nh, ns))
+        Ok((problems, nh, ns, abandoned))
     });
     if let Some(net) = netslot.lock().unwrap().take() {
         ex.net = net.stats();
@@ -631,8 +649,11 @@ pub fn execute(plan: &Plan, trace: bool) -> Exec {
     }
     match out.value {
         None => ex.violation("C07/run-did-not-finish", "scenario exceeded 300 s simulated".into()),
+        // the script's own stream operations fail only when the connection is gone
+        Some(Err(e)) if e.starts_with("raw open") => ex.violation("C07/connection-lost", format!("the connection ended while streams were merely stalled or abandoned: {e}")),
         Some(Err(e)) => ex.violation("C07/setup", e),
-        Some(Ok((problems, nh, ns))) => {
+        Some(Ok((problems, nh, ns, abandoned))) => {
+            ex.fault("stalled_stream_reset_by_peer", abandoned as u64);
             ex.probe("healthy_streams", nh as u64);
             ex.fault("peer_stream_stalled", ns as u64);
             ex.fault("datagrams_left_unread_runs", plan.lazy_datagrams as u64);
